@@ -361,3 +361,23 @@ Proof.
               assert (Pos.eqb c0 w = false) as -> by (apply Pos.eqb_neq; exact Hne). apply S1. exact Hc0.
       * apply wfh_set; [exact W1|lia].
 Qed.
+
+(* ---- a list built by pushes is the list of the pushed objects ---------------------------- *)
+Lemma bfold_pushes a : forall vs h l h', wfh h -> lrep h a l ->
+  bfold a h (map BPush vs) = Ok h' -> lrep h' a (l ++ vs) /\ wfh h'.
+Proof.
+  induction vs as [|v vs IH]; intros h l h' W H Hb; simpl in Hb.
+  - inversion Hb; subst. rewrite app_nil_r. auto.
+  - destruct (h_push h a v) as [h1|e|k|] eqn:Ep; try discriminate.
+    destruct (push_appends _ _ _ _ _ W H Ep) as [H1 W1].
+    destruct (IH h1 (l ++ [v]) h' W1 H1 Hb) as [H2 W2]. rewrite <- app_assoc in H2. auto.
+Qed.
+
+(* ctx.map / ctx.filter / eval_each / list: a new empty list, one push per result *)
+Theorem build_pushes h vs h' a : wfh h -> build h (map BPush vs) = Ok (h', a) -> lrep h' a vs.
+Proof.
+  intros W H. unfold build in H.
+  destruct (bfold (hnext h) (fst (halloc h HNil)) (map BPush vs)) as [hh|e|k|] eqn:E; try discriminate.
+  inversion H; subst hh a. destruct (alloc_facts h HNil W) as (W0 & N0 & G0 & S0).
+  destruct (bfold_pushes (hnext h) vs _ [] h' W0 (lrep_nil _ _ G0 ltac:(lia)) E) as [R _]. exact R.
+Qed.
